@@ -45,6 +45,8 @@ enum Status {
 
 struct Model {
     q: usize,
+    /// version of the knowledge base the instance was built on
+    version: usize,
     pos: usize,
     status: Status,
     /// the end was reported by an operation that returned with the stop flag clear
@@ -72,6 +74,14 @@ pub fn judge(property: &str, scn: &Scenario, rec: &RunRecord) -> Judgement {
     let mut cnt: BTreeMap<String, u64> = BTreeMap::new();
     let mut models: BTreeMap<usize, Model> = BTreeMap::new();
     let mut current: Option<usize> = None;
+    let mut version: usize = 0;
+    let base = |v: usize, q: usize| -> &Baseline {
+        if v < rec.baseline_v.len() && q < rec.baseline_v[v].len() {
+            &rec.baseline_v[v][q]
+        } else {
+            &rec.baseline[q]
+        }
+    };
 
     let mut report = |p: &str, class: &str, o: &OpRecord, expected: String, observed: String, detail: String| {
         if p == property {
@@ -90,7 +100,16 @@ pub fn judge(property: &str, scn: &Scenario, rec: &RunRecord) -> Judgement {
     for o in &rec.ops {
         let d = o.t_ret_us - o.t_call_us;
         match &o.op {
-            Op::New { h, q } => {
+            Op::Assert { .. } => {
+                if let OpResult::Asserted { version: v } = &o.result {
+                    // every instance was dropped by the harness before the knowledge base changed
+                    models.clear();
+                    current = None;
+                    version = *v;
+                    bump(&mut cnt, "knowledge_base_grew");
+                }
+            }
+            Op::New { h, q, .. } => {
                 if let OpResult::Panic(msg) = &o.result {
                     report("C22", "panic", o, "query built".into(), format!("panic: {}", msg), String::new());
                     continue;
@@ -108,7 +127,7 @@ pub fn judge(property: &str, scn: &Scenario, rec: &RunRecord) -> Judgement {
                 if o.flag_before {
                     bump(&mut cnt, "stale_flag_at_construction");
                 }
-                models.insert(*h, Model { q: *q, pos: 0, status: Status::Live, genuinely_exhausted: false, disturbed: false });
+                models.insert(*h, Model { q: *q, version, pos: 0, status: Status::Live, genuinely_exhausted: false, disturbed: false });
                 current = Some(*h);
             }
             Op::Drop { h } => {
@@ -136,7 +155,7 @@ pub fn judge(property: &str, scn: &Scenario, rec: &RunRecord) -> Judgement {
                     Some(m) => m,
                     None => continue,
                 };
-                let b = &rec.baseline[m.q];
+                let b = base(m.version, m.q);
                 let class = scn.queries[m.q].class;
                 if !is_current {
                     bump(&mut cnt, "resume_background_query");
@@ -387,7 +406,7 @@ pub fn judge(property: &str, scn: &Scenario, rec: &RunRecord) -> Judgement {
             if scn.queries[i].class == QueryClass::Diverges {
                 continue;
             }
-            let b = &rec.baseline[i];
+            let b = base(rec.final_version, i);
             bump(&mut cnt, "post_checks");
             if p.answers != b.answers || p.outs != b.outs || p.final_out != b.final_out || p.complete != b.complete {
                 if property == "C22" {
